@@ -1,0 +1,12 @@
+//go:build verif
+
+package session
+
+// Ghost state shared by the users of a session (broker and client packet
+// handlers) (govc, /verif). Comments only.
+//
+// saved[dir][id]: type code of the packet stored in the session of the running
+// invocation under id in direction dir (0 incoming, 1 outgoing); 0 = nothing
+// stored. nall: length of the list the last AllPackets call returned.
+//@ ghost saved map[int]map[int]int
+//@ ghost nall int
